@@ -106,7 +106,9 @@ Step ==
          grants == {k \in 1..Len(e.ga) : GaKind(e.ga[k]) = 1 /\ GaOk(e.ga[k])}
          refusals == {k \in 1..Len(e.ga) : GaKind(e.ga[k]) = 1 /\ ~GaOk(e.ga[k])}
          frees  == {k \in 1..Len(e.ga) : GaKind(e.ga[k]) = 2}
-         failed == e.res \in {"err", "panic", "hang"}
+         \* a panic raised by the caller's own initialiser (programmed by the driver) is not the arena's failure
+         userPanic == e.pp = 1
+         failed == e.res \in {"err", "panic", "hang"} /\ ~userPanic
          limB   == IF hasPrev THEN pe.lim ELSE -1
          plain  == e.op \in AllocOps
                    \/ (e.op \in TryWithOps /\ e.clos \in {"", "Nothing"})
@@ -194,7 +196,7 @@ Step ==
                  IN usable <= limB,
               <<limB, e.ga[k], heldB, K>>)
      /\ Chk("C07", "RequestThatFitsSucceedsWhateverTheLimit",
-            (fitsCur /\ e.follow # 2) => e.res \in {"ok", "initerr"}, <<e.size, e.align, pe.cap, limB, e.res>>)
+            (fitsCur /\ e.follow # 2 /\ ~userPanic) => e.res \in {"ok", "initerr"}, <<e.size, e.align, pe.cap, limB, e.res>>)
      \* ------------------------------------------------------------ C18 ----
      /\ Chk("C18", "CapacityNeverOverstated",
             (fitsCur /\ e.follow # 2) => e.ga = <<>>, <<e.size, e.align, pe.cap, e.ga>>)
@@ -219,9 +221,9 @@ Step ==
             <<total, e.size, e.len>>)
      \* ------------------------------------------------------------ C09 ----
      /\ Chk("C09", "NoHang", e.res # "hang", e.op)
-     /\ Chk("C09", "FallibleNeverPanics", e.fall = 1 => e.res # "panic", e.res)
+     /\ Chk("C09", "FallibleNeverPanics", (e.fall = 1 /\ ~userPanic) => e.res # "panic", e.res)
      /\ Chk("C09", "ErrChangesNothing",
-            (hasPrev /\ e.res \in {"err", "panic"} /\ e.op \notin CtorOps) =>
+            (hasPrev /\ e.res \in {"err", "panic"} /\ ~userPanic /\ e.op \notin CtorOps) =>
                /\ heldA = heldB /\ e.chunks = pe.chunks /\ e.cap = pe.cap
                /\ e.ab = pe.ab /\ e.new = <<>>,
             <<pe.chunks, e.chunks>>)
@@ -257,7 +259,7 @@ Step ==
             <<e.it, liveA>>)
      \* ------------------------------------------------------------ C11 ----
      /\ Chk("C11", "InitialiserNotRunWithoutSpace",
-            (e.cbn >= 0 /\ e.res \in {"err", "panic"}) => e.cb = <<>>, e.cb)
+            (e.cbn >= 0 /\ e.res \in {"err", "panic"} /\ ~userPanic) => e.cb = <<>>, e.cb)
      /\ Chk("C11", "ErrorDeliveredExactlyOnce",
             e.errtok >= 0 => /\ e.errdrops = 0
                              /\ e.errtok = (IF e.res = "initerr" THEN 1 ELSE 0),
@@ -266,6 +268,15 @@ Step ==
             (e.follow = 1 /\ hasPrev /\ pe.res = "initerr" /\ pe.clos \in {"", "Nothing"}) =>
                e.ga = <<>> /\ e.res = "ok",
             <<pe.op, pe.size, pe.align, e.ga, e.res>>)
+     \* ------------------------------------------------------------ C16 ----
+     \* a panicking initialiser (alloc_with, slice fills, clones, iterators, alloc_try_with): the panic reaches
+     \* the caller, nothing is handed out, nothing is given back, every live block is intact; the events that
+     \* follow (same program) show that the arena is still usable
+     /\ Chk("C16", "InitialiserPanicPropagatesAndHandsOutNothing",
+            userPanic => e.res = "panic" /\ e.new = <<>> /\ frees = {} /\ e.corrupt = <<>>, <<e.res, e.new, e.ga>>)
+     /\ Chk("C16", "ArenaUsableAfterInitialiserPanic",
+            (hasPrev /\ pe.pp = 1 /\ plain /\ e.pp = 0 /\ refusals = {} /\ limB = -1) => e.res \in {"ok", "initerr"},
+            <<e.op, e.res>>)
      \* ------------------------------------------------------------ C20 ----
      \* the static empty chunk is shared by all chunk-less arenas on all threads: any store
      \* into it races with the same store made for another arena on another thread
